@@ -58,6 +58,11 @@ deriving DecidableEq, Repr
 inductive RunUserStep | maybeDeferred | addErrbackGotUserFailure | returnExtracted | unknown
 deriving DecidableEq, Repr
 
+/-- statements of the errback `_got_user_failure`: `return self._got_user_exception((failure.type, failure.value,
+failure.getTracebackObject()), tb_label=tb_label)` - the failure, whatever its class, is reported as the user's exception -/
+inductive GotFailureStep | reportUserException | unknown
+deriving DecidableEq, Repr
+
 /-- does the guard hold, given what the installed pair was called with (if it ran) and `deferred.called`;
 `none` = unknown guard -/
 def Guard.holds (got : Option Res) (called : Bool) : Guard → Option Bool
@@ -109,9 +114,10 @@ def extractI (e : ExtractSrc) (d : D) : Option (D × Extracted) :=
     | some .returnNone, _ => some (x.1, .value .none)
     | _, _ => none
 
-/-- `_run_user` as the source has it -/
-def runUserI (steps : List RunUserStep) (b : Beh) : Option Outcome :=
-  if steps = [.maybeDeferred, .addErrbackGotUserFailure, .returnExtracted] then some (runUser b) else none
+/-- `_run_user` as the source has it, with the errback it installs: the model's errback (a probe that handles EVERY failure and
+returns the marker) is the reading of the one-statement `_got_user_failure`; anything else there is not interpreted -/
+def runUserI (steps : List RunUserStep) (gf : List GotFailureStep) (b : Beh) : Option Outcome :=
+  if steps = [.maybeDeferred, .addErrbackGotUserFailure, .returnExtracted] ∧ gf = [.reportUserException] then some (runUser b) else none
 
 /-- what the inner matcher of `succeeded(m)` / `failed(m)` says about the result the handler was given -/
 def innerV (vm : VM) : Res → Bool
@@ -131,5 +137,6 @@ def refFailed : MatcherSrc := { direct := true, onSuccess := .retMismatch, onFai
 def refExtract : ExtractSrc :=
   { installsAppendPair := true, arms := [(.failures, .raiseFailure), (.successes, .returnSuccess), (.otherwise, .raiseNotFired)] }
 def refRunUser : List RunUserStep := [.maybeDeferred, .addErrbackGotUserFailure, .returnExtracted]
+def refGotUserFailure : List GotFailureStep := [.reportUserException]
 
 end TTV.DeferredSkel
